@@ -427,6 +427,11 @@ func (vc *VC) execInstr(f *Frame, n *Node, in ssa.Instruction) {
 
 func (vc *VC) allocRaw(st *State, hint string) string {
 	ref := vc.defS(SRef, st.H["next"], "ref_"+hint)
+	if vc.allocRefs == nil {
+		vc.allocRefs = map[string]bool{}
+		vc.shadow = map[string]*SV{}
+	}
+	vc.allocRefs[ref] = true
 	st.H["next"] = vc.defS(SRef, app("bvadd", ref, bvLit(refBits, 1)), "next")
 	return ref
 }
@@ -434,6 +439,13 @@ func (vc *VC) allocRaw(st *State, hint string) string {
 // alloc makes a fresh zeroed object able to hold values of type et.
 func (vc *VC) alloc(st *State, et types.Type, hint string) string {
 	ref := vc.allocRaw(st, hint)
+	if et.String() == "bytes.Buffer" {
+		// a new bytes.Buffer is an empty, never failing sink that can be read back
+		st.H["Wlen"] = vc.def(stateSorts["Wlen"], sto(st.H["Wlen"], ref, bvLit(64, 0)), "Wlen")
+		st.H["Gh"] = vc.def(stateSorts["Gh"], sto(st.H["Gh"], ref, bvLit(64, 0)), "Gh")
+		st.H["Wfail"] = vc.def(stateSorts["Wfail"], sto(st.H["Wfail"], ref, "false"), "Wfail")
+		return ref
+	}
 	seen := map[Sort]bool{}
 	var sorts []Sort
 	switch u := et.Underlying().(type) {
@@ -477,6 +489,21 @@ func (vc *VC) store(st *State, addr *SV, val *SV) {
 		h := s.heap()
 		st.H[h] = vc.def(heapSort(s), sto2(st.H[h], addr.C[0], cellIdx(addr.C[1], i), val.C[i]), h)
 	}
+	// shadow: remember the dynamic-type metadata of interface values stored in
+	// local objects at constant offsets (used only to pick dispatch candidates)
+	if vc.allocRefs[addr.C[0]] {
+		if _, _, lit := litVal(addr.C[1]); lit {
+			if isInterface(t) {
+				vc.shadow[addr.C[0]+"|"+addr.C[1]] = val
+			}
+		} else {
+			for k := range vc.shadow {
+				if strings.HasPrefix(k, addr.C[0]+"|") {
+					delete(vc.shadow, k)
+				}
+			}
+		}
+	}
 }
 
 func (vc *VC) load(st *State, addr *SV, t types.Type, hint string) *SV {
@@ -489,10 +516,21 @@ func (vc *VC) load(st *State, addr *SV, t types.Type, hint string) *SV {
 		v.C[i] = vc.defS(s, vc.known(sel2(st.H[s.heap()], addr.C[0], cellIdx(addr.C[1], i))), hint)
 		if s == SRef {
 			vc.assume(app("bvult", v.C[i], st.H["next"]))
+			if vc.entry != nil {
+				// the entry heap is closed: its cells hold references to objects that existed at entry
+				vc.assume(app("bvult", sel2(vc.entry.H["Href"], addr.C[0], cellIdx(addr.C[1], i)), vc.entry.H["next"]))
+			}
 		}
 	}
 	vc.constrainSV(v)
 	vc.notSelf(t, v.C, addr.C[0])
+	if isInterface(t) {
+		if sh, ok := vc.shadow[addr.C[0]+"|"+addr.C[1]]; ok && sh.Exact && len(sh.Cands) > 0 {
+			v.Cands = append([]types.Type{}, sh.Cands...)
+		} else {
+			v.Cands = append([]types.Type{}, vc.boxedTypes...)
+		}
+	}
 	return v
 }
 
@@ -656,11 +694,11 @@ func (vc *VC) binop(f *Frame, n *Node, in *ssa.BinOp) *SV {
 			vc.oblige("div-zero", "integer divide by zero"+f.where(in), n.Reach, not(eq(b, bvLit(s.Bits(), 0))), "@nopanic")
 			return mk(vc.divTerm(a, b, s.Bits(), sg, in.Op == token.REM))
 		case token.AND:
-			return mk(app("bvand", a, b))
+			return mk(appf("bvand", a, b))
 		case token.OR:
-			return mk(app("bvor", a, b))
+			return mk(appf("bvor", a, b))
 		case token.XOR:
-			return mk(app("bvxor", a, b))
+			return mk(appf("bvxor", a, b))
 		case token.AND_NOT:
 			return mk(app("bvand", a, app("bvnot", b)))
 		case token.SHL, token.SHR:
@@ -685,7 +723,7 @@ func (vc *VC) binop(f *Frame, n *Node, in *ssa.BinOp) *SV {
 			op := map[bool]map[token.Token]string{
 				true:  {token.LSS: "bvslt", token.LEQ: "bvsle", token.GTR: "bvsgt", token.GEQ: "bvsge"},
 				false: {token.LSS: "bvult", token.LEQ: "bvule", token.GTR: "bvugt", token.GEQ: "bvuge"}}[sg][in.Op]
-			return mk(app(op, a, b))
+			return mk(appf(op, a, b))
 		}
 	case isBool(xt):
 		a, b := x.C[0], y.C[0]
@@ -866,6 +904,17 @@ func (vc *VC) floatConst(f float64, bits int) string {
 func (vc *VC) makeInterface(st *State, x *SV, it types.Type) *SV {
 	t := x.T
 	tid := vc.eng.typeID(t)
+	if !isInterface(t) {
+		seen := false
+		for _, b := range vc.boxedTypes {
+			if types.Identical(b, t) {
+				seen = true
+			}
+		}
+		if !seen {
+			vc.boxedTypes = append(vc.boxedTypes, t)
+		}
+	}
 	if isPointerLike(t) {
 		return &SV{T: it, C: []string{tid, x.C[0], x.C[1]}, Cands: []types.Type{t}, Exact: true, Sub: x.Sub}
 	}
